@@ -102,6 +102,7 @@ namespace sqf::runtime
         std::atomic<state> m_state;
         int m_exit_code;
         std::atomic<bool> m_run_atomic;
+        int m_scalar_decimals = -1; // print mode of scalars (`toFixed`), active while this runtime executes
 
     public:
         bool is_exit_requested() const { return m_is_exit_requested; }
